@@ -7,11 +7,21 @@
 // reference model (model.go); the implementation result is read over ALL indices through
 // the public API and must equal the model element-wise (values, and for Real elements
 // with activated variables also gradient and Hessian).
+//
+// Added after the second seeding round (enum.go, hist.go):
+//   - SparseConst*Vector (7 element types) as a third storage class of every vector
+//     operand that is a ConstVector, and as receiver of Equals; AsSparseConst*/NewSparseConst*;
+//   - operand histories: every sequence of at most two read-only uses (Dim, String,
+//     ConstIterator walk, Float64At, ConstSlice(i,j)+ConstAt for all i<=j; rows, columns and
+//     sub-matrices of matrices) of one operand before the judged call;
+//   - Equals with tiny non-zero values, three epsilons (1e-8, 0.75, 0), infinities and NaN,
+//     judged by the documented element comparison of the dense implementation.
 package main
 
 import (
 	"encoding/json"
 	"fmt"
+	"math"
 	"os"
 	"sort"
 	"strings"
@@ -50,7 +60,7 @@ func panicClass(msg string) string {
 	return "other"
 }
 
-func hasContainer(stor string) bool { return strings.ContainsAny(stor, "ds") }
+func hasContainer(stor string) bool { return strings.ContainsAny(stor, "dsc") }
 
 func shapeClass(cs *Case) string {
 	if cs.Op == "MdotV" || cs.Op == "VdotM" {
@@ -75,8 +85,34 @@ func letterClass(c byte) string {
 		return "zero"
 	case 'z':
 		return "zero-variable"
+	case 't', 'u', 'n':
+		return "tiny"
+	case 'I', 'J':
+		return "inf"
+	case 'N':
+		return "nan"
 	}
 	return "nonzero"
+}
+
+// sameValueLetter: the letter of the same value in the alphabet of storage stor.
+func sameValueLetter(c byte, stor byte) byte {
+	switch {
+	case stor == 'd' && (c == '_' || c == 'e'):
+		return '0'
+	case stor != 'd' && (c == '0' || c == 'e'):
+		return '_'
+	}
+	return c
+}
+
+// valueClass: the value of an element whatever its storage (Equals alphabets).
+func valueClass(c byte) string {
+	switch c {
+	case '_', 'e', '0':
+		return "zero"
+	}
+	return letterClass(c)
 }
 
 // patternClass describes the structural situation at the first failing position p.
@@ -92,8 +128,8 @@ func patternClass(cs *Case, slots [3]slot, p int) string {
 	}
 	elementwise := false
 	switch cs.Op {
-	case "VaddV", "VsubV", "VmulV", "VdivV", "VaddS", "VsubS", "VmulS", "VdivS", "Vset", "Vequals",
-		"MaddM", "MsubM", "MmulM", "MdivM", "MaddS", "MsubS", "MmulS", "MdivS", "Mset", "Mequals":
+	case "VaddV", "VsubV", "VmulV", "VdivV", "VaddS", "VsubS", "VmulS", "VdivS", "Vset", "Vequals", "VequalsE",
+		"MaddM", "MsubM", "MmulM", "MdivM", "MaddS", "MsubS", "MmulS", "MdivS", "Mset", "Mequals", "MequalsE":
 		elementwise = true
 	}
 	if elementwise && p > 0 {
@@ -193,7 +229,7 @@ func judge(cs *Case, t *tinfo, ex *expect) verdict {
 		if !hasContainer(cs.Stor) {
 			return verdict{fail: true, key: mk(-1, "panic:"+panicClass(o.pmsg)), what: "panic: " + o.pmsg}
 		}
-		if !strings.Contains(cs.Stor, "s") {
+		if !strings.ContainsAny(cs.Stor, "sc") {
 			// the all-dense configuration is the reference for loud failures
 			return verdict{outcome: "dense-panic:" + panicClass(o.pmsg)}
 		}
@@ -209,6 +245,13 @@ func judge(cs *Case, t *tinfo, ex *expect) verdict {
 	if o.dimErr != "" {
 		return verdict{fail: true, key: mk(-1, "dim"), what: o.dimErr}
 	}
+	if o.hist != "" {
+		// the judged call was not reached: the key names the operand's storage only
+		hs := strings.IndexByte("rab", cs.Hist[0])
+		kind := map[byte]string{'v': "vector", 'm': "matrix"}[slots[hs].kind]
+		return verdict{fail: true, key: "history-read|" + map[byte]string{'d': "dense", 's': "sparse", 'c': "const"}[cs.Stor[hs]] + "-" + kind,
+			what: "read-only use of the operand before the call, step " + o.hist}
+	}
 	if o.getter != "" {
 		return verdict{fail: true, key: mk(-1, "getter"), what: o.getter}
 	}
@@ -216,21 +259,82 @@ func judge(cs *Case, t *tinfo, ex *expect) verdict {
 		return verdict{fail: true, key: "HARNESS", what: fmt.Sprintf("harness: result length %d vs model %d", len(o.res), len(ex.res))}
 	}
 	if ex.isB && o.b != ex.b {
+		// the first position that decides: with a wrong "true" the first pair of elements
+		// that is not equal, with a wrong "false" the first pair that is not identical
 		p := -1
 		sym := "false-for-equal"
 		if o.b {
 			sym = "true-for-unequal"
+		}
+		var x, y float64
+		val := func(i int) (float64, float64) {
+			return roundTo(o.rtyp, letterVal(cs.R[i])), roundTo(o.rtyp, letterVal(cs.A[i]))
+		}
+		decides := func(i int) bool {
+			x, y := val(i)
+			return (o.b && !elemEquals(t.class, x, y, cs.eps())) || (!o.b && !(x == y))
+		}
+		for i := range cs.A {
+			if decides(i) {
+				p = i
+				break
+			}
+		}
+		isolated := false
+		if cs.Op == "VequalsE" || cs.Op == "MequalsE" {
+			// isolate the deciding pair: the first candidate position that alone (every other
+			// operand element made identical to the receiver's) still gives the wrong verdict
 			for i := range cs.A {
-				if letterVal(cs.A[i]) != letterVal(cs.R[i]) {
-					p = i
+				if !decides(i) {
+					continue
+				}
+				cp := *cs
+				a := []byte(cs.A)
+				for q := range a {
+					if q != i {
+						a[q] = sameValueLetter(cs.R[q], cs.Stor[1])
+					}
+				}
+				cp.A = string(a)
+				if o2 := run(&cp, t); !o2.panicked && o2.b == o.b {
+					p, isolated = i, true
 					break
 				}
 			}
 		}
-		return verdict{fail: true, key: mk(p, sym), what: fmt.Sprintf("Equals returned %v, contents equal: %v", o.b, ex.b)}
+		if p >= 0 {
+			x, y = val(p)
+		}
+		what := fmt.Sprintf("Equals(…, %v) returned %v, the dense comparison |a-b| < epsilon gives %v", cs.eps(), o.b, ex.b)
+		if cs.Op == "VequalsE" || cs.Op == "MequalsE" {
+			// signature: storage of the receiver, value classes of the deciding pair, where
+			// |difference| lies relative to epsilon
+			key := fmt.Sprintf("%s|%s|-|%s", cs.Op, storClass(slots, cs.Stor, false), sym)
+			if p >= 0 && !isolated {
+				// no single pair reproduces the verdict: it takes the zero pattern around it
+				key = fmt.Sprintf("%s|%s|needs-several-positions|%s", cs.Op, storClass(slots, cs.Stor, false), sym)
+			} else if p >= 0 {
+				rel := "diff>eps"
+				switch d := math.Abs(x - y); {
+				case d != d || math.IsInf(x, 0) || math.IsInf(y, 0):
+					rel = "diff-not-finite"
+				case d < cs.eps():
+					rel = "diff<eps"
+				case d == cs.eps():
+					rel = "diff=eps"
+				}
+				key = fmt.Sprintf("%s|%s|recv-%s,operand-%s|%s|%s", cs.Op, storClass(slots, cs.Stor, false), valueClass(cs.R[p]), valueClass(cs.A[p]), rel, sym)
+			}
+			if cs.eps() == 0 {
+				key += "|eps=0"
+			}
+			return verdict{fail: true, key: key, what: what}
+		}
+		return verdict{fail: true, key: mk(p, sym), what: what}
 	}
 	for p := range ex.res {
 		e, g := ex.res[p], o.res[p]
+		e.v = roundTo(o.rtyp, e.v)
 		if !sameClass(e.v, g.v) {
 			sym := "wrong"
 			if ex.prior != nil && len(ex.prior) == len(ex.res) && sameClass(g.v, ex.prior[p].v) && !ex.isB {
@@ -267,24 +371,31 @@ func judge(cs *Case, t *tinfo, ex *expect) verdict {
 func storClass(slots [3]slot, stor string, withOperands bool) string {
 	var parts []string
 	if k := slots[0].kind; k == 'v' || k == 'm' {
-		parts = append(parts, "recv="+map[byte]string{'d': "dense", 's': "sparse"}[stor[0]])
+		parts = append(parts, "recv="+map[byte]string{'d': "dense", 's': "sparse", 'c': "const"}[stor[0]])
 	}
-	nd, ns := 0, 0
+	nd, ns, nc := 0, 0, 0
 	for i := 1; i < 3; i++ {
 		if k := slots[i].kind; k == 'v' || k == 'm' {
-			if stor[i] == 'd' {
+			switch stor[i] {
+			case 'd':
 				nd++
-			} else {
+			case 'c':
+				nc++
+			default:
 				ns++
 			}
 		}
 	}
 	switch {
-	case nd+ns == 0 || !withOperands:
-	case ns == 0:
+	case nd+ns+nc == 0 || !withOperands:
+	case ns+nc == 0:
 		parts = append(parts, "operands=dense")
-	case nd == 0:
+	case nd+nc == 0:
 		parts = append(parts, "operands=sparse")
+	case nd+ns == 0:
+		parts = append(parts, "operands=const")
+	case nc > 0:
+		parts = append(parts, "operands=mixed+const")
 	default:
 		parts = append(parts, "operands=mixed")
 	}
@@ -305,14 +416,15 @@ func rankOf(cs *Case, ti int) int64 {
 	for _, p := range []string{cs.R, cs.A, cs.B} {
 		for i := 0; i < len(p); i++ {
 			switch p[i] {
-			case '1', 'm', 'z':
+			case '1', 'm', 'z', 't', 'u', 'n', 'q', 'I', 'J', 'N':
 				nz++
 			case 'e':
 				ex++
 			}
 		}
 	}
-	r := int64(sz)*1000000 + int64(len(cs.R)+len(cs.A)+len(cs.B))*50000 + int64(nz)*2000 + int64(ex)*500 + int64(strings.Count(cs.Stor, "s"))*100 + int64(ti)
+	r := int64(sz)*1000000 + int64(len(cs.R)+len(cs.A)+len(cs.B))*50000 + int64(nz)*2000 + int64(ex)*500 + int64(strings.Count(cs.Stor, "s")+strings.Count(cs.Stor, "c"))*100 + int64(ti)
+	r += int64(strings.Count(cs.Hist, ",")+len(cs.Hist)) * 10000
 	if cs.Var {
 		r += 50
 	}
@@ -320,10 +432,11 @@ func rankOf(cs *Case, ti int) int64 {
 }
 
 type failure struct {
-	types []string
+	types []string // labels of the failing runs ("Type" or "Type/ConstType")
 	cs    *Case
 	what  string
 	rank  int64
+	key   string
 }
 
 // dry run: only count the configurations per operation (C03_DRY=1, development aid)
@@ -335,28 +448,49 @@ func dryRun(c *vf.Ctx, fams []*family) {
 		for _, stor := range storages(f) {
 			n := int64(len(patterns(f.slots[0], stor[0], f.levels[0], f.varM))) *
 				int64(len(patterns(f.slots[1], stor[1], f.levels[1], f.varM))) *
-				int64(len(patterns(f.slots[2], stor[2], f.levels[2], f.varM))) * int64(len(f.types))
+				int64(len(patterns(f.slots[2], stor[2], f.levels[2], f.varM))) * int64(len(f.hists()))
+			var runs int64
+			for _, t := range f.types {
+				runs += int64(len(f.ctypesFor(t, stor)))
+			}
+			n *= runs
 			lab := f.op
+			switch {
+			case f.histSlot >= 0:
+				lab = "history:" + lab
+			case f.needC || f.ctOp:
+				lab = "const:" + lab
+			}
 			if f.varM {
 				lab += "+var"
 			}
 			c.Count("dry:"+lab, n)
+			switch {
+			case f.histSlot >= 0:
+				c.Count("dry:TOTAL-history", n)
+			case f.needC || f.ctOp:
+				c.Count("dry:TOTAL-const", n)
+			case f.op == "VequalsE" || f.op == "MequalsE":
+				c.Count("dry:TOTAL-equals-eps", n)
+			default:
+				c.Count("dry:TOTAL-base", n)
+			}
 			c.Count("dry:TOTAL", n)
 		}
 	}
 	c.Cap("dry run")
 }
 
-// elemLabel names the set of failing element types: "every-type", whole classes
-// ("float+real": e.g. where integer truncation hides the failure), or the explicit list
-// (a defect in a single instantiation).
-func elemLabel(failing, comparable []string) string {
+// groupLabel names a set of failing element types relative to the types that were run:
+// "every-type", whole classes ("float+real": e.g. where integer truncation hides the
+// failure), or the explicit list (a defect in a single instantiation).
+func groupLabel(failing, comparable []string, class func(string) string) string {
 	nf, nc := map[string]int{}, map[string]int{}
 	for _, n := range comparable {
-		nc[typeByName(n).class]++
+		nc[class(n)]++
 	}
 	for _, n := range failing {
-		nf[typeByName(n).class]++
+		nf[class(n)]++
 	}
 	if len(failing) == len(comparable) {
 		return "every-type" // every type run for this configuration
@@ -374,6 +508,91 @@ func elemLabel(failing, comparable []string) string {
 	return strings.Join(cl, "+")
 }
 
+func uniq(xs []string) []string {
+	seen := map[string]bool{}
+	var r []string
+	for _, x := range xs {
+		if x != "" && !seen[x] {
+			seen[x] = true
+			r = append(r, x)
+		}
+	}
+	return r
+}
+
+// classLabel (families added with the SparseConst operands, histories and Equals
+// alphabets, whose type sets differ between shapes): the element classes whose run
+// members all fail ("float+real"; "every-type" when that is all three classes), or the
+// explicit list when a class fails only in part (a defect in a single instantiation).
+func classLabel(failing, comparable []string, class func(string) string, nclasses int) string {
+	nf, nc := map[string]int{}, map[string]int{}
+	for _, n := range comparable {
+		nc[class(n)]++
+	}
+	for _, n := range failing {
+		nf[class(n)]++
+	}
+	var cl []string
+	for _, k := range []string{"int", "float", "real"} {
+		if nf[k] == 0 {
+			continue
+		}
+		if nf[k] != nc[k] {
+			return strings.Join(failing, ",")
+		}
+		cl = append(cl, k)
+	}
+	if len(cl) == nclasses {
+		return "every-type"
+	}
+	return strings.Join(cl, "+")
+}
+
+// elemLabel: failing/comparable are "Type" or "Type/ConstType" run labels.
+func elemLabel(failing, comparable []string, byClass, cross bool) string {
+	split := func(xs []string, k int) []string {
+		var r []string
+		for _, x := range xs {
+			p := strings.SplitN(x, "/", 2)
+			if k < len(p) {
+				r = append(r, p[k])
+			}
+		}
+		return uniq(r)
+	}
+	tc := func(n string) string { return typeByName(n).class }
+	cc := func(n string) string { return ctypeByName(n).class }
+	if !byClass {
+		return groupLabel(split(failing, 0), split(comparable, 0), tc)
+	}
+	lab := classLabel(split(failing, 0), split(comparable, 0), tc, 3)
+	if cross { // receiver and SparseConst element types vary independently
+		lab += ",const=" + classLabel(split(failing, 1), split(comparable, 1), cc, 2)
+	}
+	return lab
+}
+
+// fullKey: the verdict's key plus the class of the (minimal) history and the type label.
+func fullKey(cs *Case, key string) string {
+	if cs.Hist != "" {
+		key += "|after=" + histClass(cs.Hist)
+	}
+	return key + "|elem=" + cs.Elem
+}
+
+// minimalHistory: if the failure of cs (with a two-step history) also occurs with a
+// shorter history, return that one (the shortest; "" = no history needed at all).
+func minimalHistory(cs *Case, t *tinfo, ex *expect) (string, verdict) {
+	for _, h := range subHistories(cs.Hist) {
+		cp := *cs
+		cp.Hist = h
+		if v := judge(&cp, t, ex); v.fail {
+			return h, v
+		}
+	}
+	return cs.Hist, verdict{}
+}
+
 func explore(c *vf.Ctx) {
 	fams := families(c.Tier)
 	if os.Getenv("C03_DRY") != "" {
@@ -383,6 +602,7 @@ func explore(c *vf.Ctx) {
 	var idx int64
 	var evals, nontriv int64
 	outcomes := map[string]int64{}
+	counts := map[string]int64{}
 	flush := func() {
 		c.Eval(evals)
 		c.Nontrivial(nontriv)
@@ -398,15 +618,45 @@ func explore(c *vf.Ctx) {
 			c.Outcome(k)
 			c.Count("outcome:"+k, outcomes[k])
 		}
+		for k, n := range counts {
+			c.Count(k, n)
+		}
 		if c.Shard == 0 {
 			c.Count("families", int64(len(fams)))
 		}
 	}()
 	for fi, f := range fams {
+		hists := f.hists()
+		group := "base"
+		switch {
+		case f.histSlot >= 0:
+			group = "operand-history"
+		case f.needC || f.ctOp:
+			group = "sparse-const-operand"
+		case f.op == "VequalsE" || f.op == "MequalsE":
+			group = "equals-epsilon"
+		}
+		var groupEvals int64
+		defer func(g string) { counts["evaluations:"+g] += groupEvals }(group)
 		for _, stor := range storages(f) {
 			pr := patterns(f.slots[0], stor[0], f.levels[0], f.varM)
 			pa := patterns(f.slots[1], stor[1], f.levels[1], f.varM)
 			pb := patterns(f.slots[2], stor[2], f.levels[2], f.varM)
+			type runT struct {
+				t     *tinfo
+				ct    *cinfo
+				label string
+			}
+			var runs []runT
+			for _, t := range f.types {
+				for _, ct := range f.ctypesFor(t, stor) {
+					r := runT{t: t, ct: ct, label: t.name}
+					if ct != nil {
+						r.label += "/" + ct.name
+					}
+					runs = append(runs, r)
+				}
+			}
 			for _, r := range pr {
 				for _, a := range pa {
 					idx++
@@ -420,60 +670,89 @@ func explore(c *vf.Ctx) {
 					}
 					c.Guard(fmt.Sprintf("%s|%s", f.op, stor), int64(fi), map[string]any{"op": f.op, "dims": f.dims, "storage": stor, "recv": r, "a": a})
 					for _, b := range pb {
-						cs := Case{Op: f.op, Var: f.varM, Dims: f.dims, Stor: stor, R: r, A: a, B: b}
-						if f.varM && countVars(a, true)+countVars(b, true)+countVars(r, true) == 0 {
+						base := Case{Op: f.op, Var: f.varM, Dims: f.dims, Stor: stor, R: r, A: a, B: b}
+						if f.varM && base.nvars() == 0 {
 							continue // identical to the case without variables
 						}
 						var exs [3]*expect // per class
-						fails := map[string]*failure{}
-						var compTypes []string // types whose run did not end in an accepted panic
-						for ti, t := range f.types {
-							ci := map[string]int{"int": 0, "float": 1, "real": 2}[t.class]
-							if exs[ci] == nil {
-								exs[ci] = expected(&cs, t.class)
-							}
-							cs.Type = t.name
-							v := judge(&cs, t, exs[ci])
-							evals++
-							if v.fail || strings.HasPrefix(v.outcome, "ok") {
-								compTypes = append(compTypes, t.name)
-							}
-							if v.fail {
-								if v.key == "HARNESS" {
-									c.HarnessError(v.what + " in " + cs.String())
-									continue
+						for _, h := range hists {
+							cs := base
+							cs.Hist = h
+							fails := map[string]*failure{}
+							var compTypes []string // runs that did not end in an accepted panic
+							for ri, rn := range runs {
+								t := rn.t
+								ci := map[string]int{"int": 0, "float": 1, "real": 2}[t.class]
+								if exs[ci] == nil {
+									exs[ci] = expected(&cs, t.class)
 								}
-								// a failure must reproduce (map iteration order etc.)
-								if v2 := judge(&cs, t, exs[ci]); !v2.fail || v2.key != v.key {
-									c.HarnessError("verdict not reproducible for " + cs.String() + ": " + v.key + " vs " + v2.key)
-									continue
+								cs.Type, cs.CT = t.name, ""
+								if rn.ct != nil {
+									cs.CT = rn.ct.name
 								}
-								fl := fails[v.key]
-								if fl == nil {
+								v := judge(&cs, t, exs[ci])
+								evals++
+								groupEvals++
+								if v.fail || strings.HasPrefix(v.outcome, "ok") {
+									compTypes = append(compTypes, rn.label)
+								}
+								if v.fail {
+									if v.key == "HARNESS" {
+										c.HarnessError(v.what + " in " + cs.String())
+										continue
+									}
+									// a failure must reproduce (map iteration order etc.)
+									if v2 := judge(&cs, t, exs[ci]); !v2.fail || v2.key != v.key {
+										c.HarnessError("verdict not reproducible for " + cs.String() + ": " + v.key + " vs " + v2.key)
+										continue
+									}
 									cp := cs
-									fl = &failure{cs: &cp, what: v.what, rank: rankOf(&cs, ti)}
-									fails[v.key] = fl
-								}
-								fl.types = append(fl.types, t.name)
-								outcomes[f.op+"|FAIL"]++
-							} else {
-								outcomes[f.op+"|"+v.outcome]++
-								if v.compared > 0 || (v.outcome != "" && strings.HasPrefix(v.outcome, "ok:equals")) {
-									nontriv++
+									if cs.Hist != "" {
+										// attribute the failure to the shortest history that shows it
+										// ("": the plain configuration fails as well)
+										if mh, mv := minimalHistory(&cs, t, exs[ci]); mh != cs.Hist {
+											cp.Hist, v = mh, mv
+										}
+									}
+									fk := v.key
+									if cp.Hist != "" {
+										fk += "|after=" + histClass(cp.Hist)
+									}
+									fl := fails[fk]
+									if fl == nil {
+										fl = &failure{cs: &cp, what: v.what, rank: rankOf(&cp, ri), key: v.key}
+										fails[fk] = fl
+									}
+									fl.types = append(fl.types, rn.label)
+									outcomes[f.op+"|FAIL"]++
+								} else {
+									out := v.outcome
+									if h != "" {
+										out += "|after-history"
+									}
+									outcomes[f.op+"|"+out]++
+									if v.compared > 0 || (v.outcome != "" && strings.HasPrefix(v.outcome, "ok:equals")) {
+										nontriv++
+									}
 								}
 							}
-						}
-						for key, fl := range fails {
-							label := elemLabel(fl.types, compTypes)
-							fl.cs.Elem = label
-							fl.cs.Types = fl.types
-							c.Violate(key+"|elem="+label, fmt.Sprintf("%s :: %s", fl.cs.String(), fl.what), fl.rank, fl.cs)
+							for _, fl := range fails {
+								fl.cs.Elem = elemLabel(fl.types, compTypes, group != "base", f.cross)
+								fl.cs.Types = fl.types
+								first := strings.SplitN(fl.types[0], "/", 2)
+								fl.cs.Type, fl.cs.CT = first[0], ""
+								if len(first) > 1 {
+									fl.cs.CT = first[1]
+								}
+								c.Violate(fullKey(fl.cs, fl.key), fmt.Sprintf("%s :: %s", fl.cs.String(), fl.what), fl.rank, fl.cs)
+							}
 						}
 						if evals > 100000 {
 							flush()
 						}
 						if idx%4001 == 17 && b == pb[len(pb)-1] {
-							c.Sample(map[string]any{"case": cs.String(), "types_run": len(f.types)})
+							base.Hist = hists[len(hists)-1]
+							c.Sample(map[string]any{"case": base.String(), "runs_per_case": len(runs), "histories": len(hists)})
 						}
 					}
 				}
@@ -488,11 +767,16 @@ func main() {
 		ID:    "C03",
 		Level: "exploration",
 		Rule: "exhaustive product, per operation and shape, of storage combinations (receiver and each operand independently dense/sparse) × element patterns (dense {0,1,-2}; sparse {no entry, explicitly stored zero, 1, -2}; with variables additionally a zero-valued variable) for receiver prior content and both operands × element types (all 9 at the small shapes; at the largest shapes of a tier a reduced per-position alphabet {0|no entry, explicit zero, x} and a subset of types, see families() in enum.go); " +
+			"further families (listed in families()): (i) the same operations with SparseConst<T>Vector operands (third storage class of every ConstVector operand, receiver of Equals; all 7 element types, crossed with all 9 receiver types at n<=2), AsSparseConst*/NewSparseConst*; " +
+			"(ii) operand histories: every sequence of 1..2 read-only uses {Dim, String, ConstIterator walk, Float64At over all indices, ConstSlice(i,j) then ConstAt over the slice for all i<=j (matrices: ConstRow/ConstCol/every sub-matrix)} applied to one operand (each operand in turn, every storage class) between construction and the judged call, every value read in the history compared as well; " +
+			"(iii) Equals (vector and matrix, every storage combination incl. SparseConst) over the alphabets {0|no entry, explicit zero, ±1e-17, 1e-9, 0.75, 1} and {0|no entry, explicit zero, 1, ±Inf, NaN} × epsilon {1e-8, 0.75, 0}, reference |a-b| < epsilon (or both NaN / same infinity; integers exact) on the dense model; " +
 			"every configuration is distinct by construction; one is counted non-trivial when the library returned a result that was compared element-wise with the dense reference model over at least one element (or an Equals verdict); runs ending in a panic shared with the all-dense configuration are counted as evaluations only",
 		Assume: []string{
 			"a panic is an acceptable outcome of a configuration iff the all-dense configuration of the same mathematical content panics as well (loud failure itself is C20's subject)",
 			"exact regime: all values are small integers/dyadics, division only by ±1, ±2 or IEEE division by zero compared by class; derivatives are not compared at elements produced by a division by zero",
-			"operands are whole containers (no slices/transposes: C10), receiver never aliases an operand (C08), generic interface methods only (concrete VADDV… are C09)",
+			"operands are whole containers (no slices/transposes: C10; slices only appear as objects derived in an operand history), receiver never aliases an operand (C08), generic interface methods only (concrete VADDV… are C09)",
+			"a SparseConst vector with an explicitly stored zero is built with UnsafeSparseConst<T>Vector from sorted index/value lists; every other one with NewSparseConst<T>Vector",
+			"a failure under a history is attributed to the shortest sub-history (possibly the empty one) that still shows it",
 		},
 		Run:       explore,
 		SoftLimit: map[string]time.Duration{"quick": 100 * time.Second, "thorough": 14 * time.Minute},
@@ -509,7 +793,7 @@ func main() {
 			}
 			v := judge(&cs, t, expected(&cs, t.class))
 			if v.fail {
-				c.Violate(v.key+"|elem="+cs.Elem, cs.String()+" :: "+v.what, 0, &cs)
+				c.Violate(fullKey(&cs, v.key), cs.String()+" :: "+v.what, 0, &cs)
 			}
 		},
 	})
